@@ -132,6 +132,18 @@ def gen(g, count):
             c = app(path, files, args=args, s=sw, kind=' '.join(path) + (' [' + '+'.join(sw) + ']' if sw else ''), disk=(path == ['stats']))
             c.meta.update(meta)
             cases.append(c)
+        if which == 'log' and log:
+            # a period selects what is reported, not what is read: a malformed line outside it (or after the last selected day) is still an error
+            for path, args in r.sample([(['reg'], ()), (['bal'], ()), (['csv', 'log'], ()), (['print'], ()), (['report', 'totals'], ()), (['report', 'quantity'], ()), (['report', 'unresolved'], ())], 3):
+                d0 = r.choice(log)[0].strftime('%Y/%m/%d')
+                gp = r.choice([{'begin': d0, 'end': d0}, {'end': d0}, {'begin': d0}])
+                c = app(path, files, args=args, g=gp, kind=' '.join(path) + ' [period]')
+                c.meta.update(meta)
+                cases.append(c)
+            for d_ in {x[0] for x in log}:
+                c = app(['summary'], files, args=(d_.strftime('%Y/%m/%d'),), kind='summary [each day]')
+                c.meta.update(meta)
+                cases.append(c)
         target = b'food.yaml' if which == 'db' else b'log.yaml'
         for silent in (False, True):
             c = app(['lint'], files, args=(target,), s={'silent': True} if silent else {}, kind='lint --silent' if silent else 'lint')
@@ -178,6 +190,24 @@ def run(ctx):
         ctx.count('file:' + c.meta['which'])
         if c.meta['k'] >= 1 and b'line 2' not in c.meta['msgs'][0]:
             ctx.mark_nontrivial(sig(c.files))
+    # what the user reads is what `main` prints: the same message, once, on standard error of the real program
+    import re
+    from ..common import real_observation
+    cand = [c for c in cases if c.meta['k'] >= 1 and not c.meta['kind'].startswith('lint') and not c.disk]
+    cand.sort(key=lambda c: (0 if (b'%' in c.meta['msgs'][0] or b'\\' in c.meta['msgs'][0]) else 1))
+    nreal = 0
+    for c in cand[:12] + cand[len(cand) // 2:len(cand) // 2 + (8 if ctx.tier == 'quick' else 60)]:
+        r_ = real_observation(ctx, c)
+        if r_ is None:
+            continue
+        rc, out, err = r_
+        nreal += 1
+        got = re.sub(rb'^\d{4}/\d\d/\d\d \d\d:\d\d:\d\d ', b'', err)
+        if rc == 0 or got != c.meta['msgs'][0] + b'\n':
+            ctx.problem('oracle', 'the real program run on `%s`: exit status %d, standard error is not the message of the first malformed line' % (c.meta['kind'], rc), c,
+                        {'stderr': err.decode('utf-8', 'replace')[:600], 'expected_after_the_time_stamp': c.meta['msgs'][0].decode('utf-8', 'replace')}, signature='stderr-message')
+    ctx.evaluations += nreal
+    ctx.notes.append('%d malformed files also run through the untagged binary: exit status and the text on standard error' % nreal)
     c = next((c for c in cases if c.meta['k'] >= 2), cases[0])
     ctx.sample({'cmd': c.shell(), 'expected_errors': [m.decode('utf-8', 'replace') for m in c.meta['msgs']],
                 'file': c.files[b'food.yaml' if c.meta['which'] == 'db' else b'log.yaml'].decode('utf-8', 'replace')[:600]})
